@@ -229,6 +229,15 @@ func (s *Scope) Declare(decl DeclType, name []byte) (*Var, bool) {
 		}
 	}
 
+	if decl == LexicalDecl {
+		// a var or function declaration in this block (or in a block nested in it) belongs to the enclosing function and is only listed as used here: `{var a; let a}` declares a twice
+		for _, uv := range s.Undeclared[s.NumArgUses:] {
+			if (uv.Decl == VariableDecl || uv.Decl == FunctionDecl) && bytes.Equal(name, uv.Data) {
+				return nil, false
+			}
+		}
+	}
+
 	if v := s.findDeclared(name, true); v != nil {
 		// variable already declared, might be an error or a duplicate declaration
 		if (ArgumentDecl < v.Decl || FunctionDecl < decl) && v.Decl != ExprDecl {
